@@ -84,12 +84,26 @@ def positive_point_equal(a, b, n_points=3):
     return None
 
 
+def all_attrs(expr) -> list:
+    """(class, field, value) of every non-SymPy attribute in the tree (str()/srepr() do not show them)."""
+    import sympy as sp
+
+    out = []
+    for n in sp.preorder_traversal(expr):
+        if m1.is_unevaluated_class(type(n)):
+            for f in dataclasses.fields(type(n)):
+                if not f.metadata.get("sympify"):
+                    v = getattr(n, f.name)
+                    out.append(f"{type(n).__name__}.{f.name} = " + (f"{getattr(v, '__module__', '')}.{getattr(v, '__qualname__', '')}" if callable(v) else repr(v)))
+    return out[:12]
+
+
 def check_instance(entry, r, pools, rng, ctx, stats):  # noqa: C901, PLR0912
     """Clauses 1-3 on one real instance. Returns failing inputs."""
     import sympy as sp
 
     fails = []
-    rec = {"expr": sp.srepr(r)[:2000], "instance": str(r)[:300]}
+    rec = {"expr": sp.srepr(r)[:2000], "instance": str(r)[:300], "non_sympy_attributes": all_attrs(r)}
     # (1) substitution commutes with unfolding
     for how in ("xreplace", "subs"):
         sigma = respectful_map(pools, rng, r)
